@@ -37,4 +37,38 @@ CHECKS = {
                       "that is driven directly here. Trusts the vfs shim op log and the harness state model.",
         "assumptions": ["compaction is the identity on (live key -> value, swamp name)", "prefix persistence + rename-before-fsync hazard"],
     },
+    "C25": {
+        "pkg": "storage", "run": "^TestC25", "level": "fault_enumeration", "overlay": "vfs", "tags": ["verifvfs"],
+        "shards": {"quick": 4, "thorough": 16},
+        "technique": "rapid-generated write histories with injected file-operation faults (error / short write; single and double; exhaustive single faults per history in thorough) against an acknowledged-value oracle",
+        "level_text": "The storage engine's real file operations are intercepted (AST-instrumented os calls); fault plans drawn from a fault-free dry run make the n-th "
+                      "operation fail or a write store only a prefix. After the history and a reload every key must hold its acknowledged value, or for unacknowledged "
+                      "writes the previous acknowledged value or an attempted one; later writes must again be stored and reload. Thorough tier enumerates every single "
+                      "fault at every faultable operation for a third of the histories.",
+        "level_note": "Faults are one-shot (the fault clears). chronicler.Write reports failures only through the log, so writes handed over between a fault and the "
+                      "next successful Sync/Close are treated as unacknowledged. Trusts the vfs shim and the harness acknowledgement model.",
+        "assumptions": ["a Sync/Close that returns nil acknowledges every entry handed over before it, unless a fault fired in between"],
+    },
+    "C20": {
+        "pkg": "addr", "run": "^TestC20", "level": "exploration",
+        "shards": {"quick": 1, "thorough": 16},
+        "technique": "rapid property-based test of the pure addressing functions; differential SDK vs server, metamorphic root/island, batch injectivity",
+        "level_text": "Generated batches of name triples (alnum, arbitrary UTF-8, re-split, permuted and counter families up to 10^4 names) across island counts and the "
+                      "depth x folders-per-level grid are run through the real SDK and server name packages. Island equality and range, object and Load determinism, "
+                      "no panic, containment under root/island, level count, batch injectivity and root/island prefix metamorphism are asserted. Exploration only.",
+        "level_note": "Does not exercise the client routing table (Connect needs an mTLS server). xxhash64 collisions are assumed absent within a batch. "
+                      "The level-count assertion is conditional on the unpadded hash having enough digits.",
+        "assumptions": ["one N and one (root, island, depth, per-level) per name object, because results are cached per object",
+                        "canonical names have non-empty parts without '/' and are not '*'"],
+    },
+    "C21": {
+        "pkg": "addr", "run": "^TestC21", "level": "exploration",
+        "shards": {"quick": 1, "thorough": 16},
+        "technique": "stateful rapid PBT of settings.RegisterPattern/DeregisterPattern/GetBySwampName/New against a specificity partial-order model, with order and restart metamorphism",
+        "level_text": "Generated histories of registrations, re-registrations, deregistrations and restarts over a tiny alphabet are applied to the real settings package on a "
+                      "tmpfs root. After every step all 18 concrete names are resolved 64x and judged against the model (determinism, most specific match wins, last "
+                      "registration's values). The final set is re-registered in other orders on fresh roots. Exploration only.",
+        "level_note": "Values are restricted to the gateway's domain (>= 1); ChroniclerV2 and sanctuary wildcards are excluded. Restart means settings.New on the same directory in one process.",
+        "assumptions": ["'*' in the realm or swamp position matches any value and the sanctuary is literal", "specificity is the part-wise literal-over-wildcard partial order"],
+    },
 }
